@@ -648,6 +648,39 @@ func canonGrid(c *Ctx, prop string) []canonIn {
 		}
 		add(canonIn{Kind: "full", Name: "2xpath", G: pp, Known: [][]int{swap}, Rep: "dense", Pi: r.Perm(2 * n)})
 	}
+	// disjoint unions of cycles and their complements (same automorphism group): rotations and reflections of every cycle and swaps of
+	// equal cycles are known; one cell that refinement cannot split, orbits of different sizes in it (the family of defect 533abb7)
+	for _, lens := range [][]int{{3, 4, 5, 5}, {3, 5, 5, 6}, {4, 5, 6, 7}, {5, 6, 7, 8}, {7, 8, 9}, {3, 3, 4, 4, 6}, {5, 5, 5, 5, 5, 5}, {3, 3, 3, 4, 4, 9}} {
+		n := 0
+		u := gJ{N: 0}
+		known := [][]int{}
+		offs := []int{}
+		for _, l := range lens {
+			offs = append(offs, n)
+			u = disjointUnion(u, gJOf(graph.Cycle(l)))
+			n += l
+		}
+		for k, l := range lens {
+			rot, refl := identity(n), identity(n)
+			for i := 0; i < l; i++ {
+				rot[offs[k]+i] = offs[k] + (i+1)%l
+				refl[offs[k]+i] = offs[k] + (l-i)%l
+			}
+			known = append(known, rot, refl)
+			if k > 0 && lens[k-1] == l {
+				sw := identity(n)
+				for i := 0; i < l; i++ {
+					sw[offs[k]+i], sw[offs[k-1]+i] = offs[k-1]+i, offs[k]+i
+				}
+				known = append(known, sw)
+			}
+		}
+		co := gJOf(graph.ComplementDense(graphOfJ("dense", u)))
+		for t := 0; t < 3; t++ {
+			add(canonIn{Kind: "full", Name: "cycles", G: u, Known: known, Rep: []string{"dense", "sparse"}[t%2], Pi: r.Perm(n)})
+			add(canonIn{Kind: "full", Name: "co-cycles", G: co, Known: known, Rep: []string{"sparse", "dense"}[t%2], Pi: r.Perm(n)})
+		}
+	}
 	// reuse: every (previous kind and size) -> (next kind and size) pair through one storage, with and without vertex classes
 	kindOf := func(k, n int) gJ {
 		switch k {
